@@ -105,6 +105,28 @@ func (ex *Exec) invoke(st *State, fr *Frame, dst ssa.Value, fv *FuncV, args []Va
 		advance()
 		return nil
 	}
+	if st.PendingTokens != nil && fn.Pkg == ex.Pkg {
+		switch fn.Name() {
+		case "newLexer":
+			// no lexer goroutine is started: the token list is already there
+			obj := ex.newObj(st, ex.zero(fn.Signature.Results().At(0).Type().(*types.Pointer).Elem()))
+			if dst != nil {
+				fr.Env[dst] = &Ptr{Obj: obj}
+			}
+			advance()
+			return nil
+		case "Tokens":
+			if fn.Signature.Recv() != nil {
+				toks := st.PendingTokens
+				st.PendingTokens = nil
+				if dst != nil {
+					fr.Env[dst] = &TupleV{[]Value{toks, &IfaceV{}}}
+				}
+				advance()
+				return nil
+			}
+		}
+	}
 	if stub, ok := ex.StubTable[name]; ok {
 		res, req := stub(ex, st, fr, args, in)
 		if req != nil {
